@@ -4,13 +4,20 @@ property it targets (or all checks with --all), and records which checks report 
 Usage: tools/mutation_matrix.py [--all] [--tier quick|thorough] [ids...]"""
 import json, os, subprocess, sys, glob, re, time
 ALL = "--all" in sys.argv
+# --copy: work on private copies of /repo and /verif (so the real trees stay usable meanwhile)
+COPY = "--copy" in sys.argv
+REPO, VERIF = "/repo", "/verif"
+if COPY:
+    REPO, VERIF = "/tmp/mm/repo", "/tmp/mm/verif"
+    os.makedirs("/tmp/mm", exist_ok=True)
+    subprocess.run(f"rm -rf {REPO} {VERIF}; git clone -q /repo {REPO} && rsync -a --exclude 'mc/target*' --exclude .git --exclude replays /verif/ {VERIF}/ && sed -i 's#/repo#{REPO}#g' {VERIF}/mc/Cargo.toml && cp /repo/Cargo.lock {REPO}/Cargo.lock", shell=True, check=True)
 tier = "quick"
 args = [a for a in sys.argv[1:] if not a.startswith("--")]
 if "--tier" in sys.argv: tier = sys.argv[sys.argv.index("--tier") + 1]; args = [a for a in args if a != tier]
 def sh(cmd, cwd=None, timeout=3600):
     p = subprocess.run(cmd, shell=True, cwd=cwd, capture_output=True, text=True, timeout=timeout)
     return p.returncode, p.stdout + p.stderr
-assert sh("git status --porcelain", "/repo")[1].strip() == "", "/repo not clean"
+assert sh("git status --porcelain", REPO)[1].strip() == "", "repo not clean"
 items = []
 for d in sorted(glob.glob("/verif/seeded/C*-*")):
     m = json.load(open(d + "/meta.json"))
@@ -24,7 +31,7 @@ out_path = "/verif/seeded/MATRIX.json"
 matrix = json.load(open(out_path)) if os.path.exists(out_path) else {}
 for (mid, prop, patch) in items:
     if args and mid not in args and prop not in args: continue
-    rc, o = sh(f"git apply {patch}", "/repo")
+    rc, o = sh(f"git apply {patch}", REPO)
     if rc != 0:
         print(mid, "PATCH DOES NOT APPLY", o[:200]); matrix.setdefault(mid, {})["applies"] = False; continue
     try:
@@ -33,13 +40,13 @@ for (mid, prop, patch) in items:
         row.setdefault("detected_by", {})
         for p in (props if ALL else [prop]):
             t0 = time.time()
-            rc, o = sh(f"./check {p} {tier}", "/verif")
+            rc, o = sh(f"./check {p} {tier}", VERIF)
             viol = [l for l in o.splitlines() if l.startswith("VIOLATION")]
             row["detected_by"][p] = {"tier": tier, "rc": rc, "violation_lines": len(viol), "first": viol[0][:300] if viol else "", "secs": round(time.time() - t0, 1)}
             print(mid, p, "rc", rc, "violations", len(viol), flush=True)
     finally:
-        sh("git checkout -- .", "/repo")
+        sh("git checkout -- .", REPO)
     json.dump(matrix, open(out_path, "w"), indent=1)
-assert sh("git status --porcelain", "/repo")[1].strip() == ""
+assert sh("git status --porcelain", REPO)[1].strip() == ""
 own = {k: v["detected_by"].get(v["property"], {}).get("rc") == 1 for k, v in matrix.items() if "detected_by" in v}
 print("detected by own property check:", sum(own.values()), "of", len(own)); print("missed:", [k for k, v in own.items() if not v])
